@@ -43,6 +43,9 @@ KINDS = {
     'PN': ('threading', 'pool-12345', True, False),
     # matched by the third pattern only if the first one's inline flag leaks
     'XI': ('threading', 'XIgn-upper', True, False),
+    # Thread subclasses whose instances are falsy: ignored by name / not ignored
+    'FG': ('threading', 'falsy:ign-idle', True, False),
+    'FN': ('threading', 'falsy:idle-worker', True, False),
 }
 IGNORE = ['(?i)IGN', r'pool-\d{1,3}$', 'xi']
 # other pattern lists (case[6]); a run must use the patterns it was given and
